@@ -13,7 +13,7 @@ CHECK = {
         "technique": "bounded-exhaustive enumeration against a reference model, differential against the untraced run",
         "text": "Every truncation of every enveloped stream of the alphabet is pushed through the real TracingRoundTripper / TracingHandler "
                 "(tracingReader for client response, server request and client request bodies; tracingResponseWriter for server responses) "
-                "in every composition into Read/Write calls (all 2^(n-1) compositions for streams up to 14 bytes quick / 16 thorough, "
+                "in every composition into Read/Write calls (all 2^(n-1) compositions of every truncation of streams up to 14 bytes quick / 15 thorough, thorough also of every truncation up to 13 bytes of any longer stream; "
                 "at most 3 pieces (part B: 4) plus all-1-byte beyond), with every ending (EOF alone or with the last data, error alone or with data, Close before the end, "
                 "failing Close; handler return, failing and short write, handler panic). The trace handed to a fake Collector is compared with a whole-buffer "
                 "reference parse (data events with exact flags / declared length / consecutive indices, end-stream content decompressed iff bit 0, "
